@@ -21,9 +21,11 @@ type ParserData struct {
 		breakIndex    int
 		blockDepth    int
 	}
+	codeOverflow bool // 指令数量超出容量上限，多出的指令已被丢弃，此次解析必须以错误结束
+
 	loopLayer  int // 当前loop层数
 	blockDepth int // 当前已打开的语句块数量，break/continue 跳出时需要先关闭循环内打开的块
-	codeStack []struct {
+	codeStack  []struct {
 		code    []ByteCode
 		index   int
 		textPos int
@@ -75,7 +77,8 @@ func (e *ParserData) checkStackOverflow() bool {
 			copy(newCode, e.code)
 			e.code = newCode
 		} else {
-			// e.Error = errors.New("E1:指令虚拟机栈溢出，请不要发送过长的指令")
+			// 超出容量的指令会被丢弃，记录下来由 Parse 报错，不能执行被截断的程序
+			e.codeOverflow = true
 			return true
 		}
 	}
